@@ -32,7 +32,7 @@ Record bstate := { b_vers : vstat; b_objs : bytes -> kstate; b_ups : list (N * u
 Definition istate := bytes -> option bstate.
 
 Inductive err := NoSuchBucket | NoSuchKey | BucketAlreadyExists | BucketNotEmpty | PreconditionFailed | DeleteMarker
-                 | InvalidPart.
+                 | InvalidPart | BadDigest.
 
 Definition fupd {A} (f : bytes -> A) (k : bytes) (v : A) : bytes -> A :=
   fun x => if bytes_eqb x k then v else f x.
@@ -44,6 +44,7 @@ Definition init_inner : istate := fun _ => None.
 Record popts := { o_tags : list kv; o_meta : option meta; o_class : option bytes;
                   o_ifnone : bool; o_ifmatch : option (option N) }.
 
+Inductive badc := BPut (b k : bytes) | BAppend (b k : bytes) | BPart (b k : bytes) (u : N).
 Inductive call :=
 | CCreate (b : bytes)
 | CDeleteB (b : bytes)
@@ -61,7 +62,11 @@ Inductive call :=
 | CAppend (b k : bytes) (cid : N)
 | CPutTags (b k : bytes) (tags : list kv)
 | CDelTags (b k : bytes)
-| CPutR (b k : bytes) (r : rec).      (* internal: unconditional put of a given record (copy's write half) *)
+| CPutR (b k : bytes) (r : rec)       (* internal: unconditional put of a given record (copy's write half) *)
+(* DeleteObjects with a per-entry If-Match: None = plain, Some None = the wildcard, Some (Some c) = the ETag of content c *)
+| CDelsC (b : bytes) (es : list (bytes * option (option N)))
+(* a write whose declared digest (Content-MD5 or an x-amz-checksum header) does not match its body: refused *)
+| CBadDigest (x : badc).
 
 Definition none6 : list (option bytes) := [None; None; None; None; None; None].
 Definition fix6 (l : list (option bytes)) : list (option bytes) := firstn 6 (l ++ none6).
@@ -127,6 +132,24 @@ Definition del_k (st : vstat) (ks : kstate) (vid : option bytes) (ifm : option (
            | VSuspended => ({| v_null := false; v_rec := None |} :: remove_null ks, None)
            | VUnset => (match ks with _ :: t => t | [] => [] end, None)
            end
+  end.
+
+(* metadatapart/delete.go DeleteObjects, one entry: the pre-check compares the ETag literally, so
+   the wildcard If-Match never matches; a failed condition skips the entry, the batch goes on *)
+Definition entry_k (st : vstat) (ks : kstate) (cond : option (option N)) : kstate :=
+  match cond with
+  | None => fst (del_k st ks None None)
+  | Some None => ks
+  | Some (Some c) =>
+      match cur_cid ks with
+      | Some c' => if (c =? c')%N then fst (del_k st ks None (Some (Some c))) else ks
+      | None => ks
+      end
+  end.
+Fixpoint dels_c (st : vstat) (objs : bytes -> kstate) (es : list (bytes * option (option N))) : bytes -> kstate :=
+  match es with
+  | [] => objs
+  | (k, cond) :: t => dels_c st (fupd objs k (entry_k st (objs k) cond)) t
   end.
 
 (* sql/multipart.go CompleteMultipartUpload on one key: the same conditions and version handling as
@@ -225,6 +248,7 @@ Definition keyop (c : call) : option (bytes * bytes) :=
   match c with
   | CMpCreate b k _ _ _ | CMpPart b k _ _ _ | CMpComplete b k _ _ _ | CMpAbort b k _
   | CAppend b k _ | CPutTags b k _ | CDelTags b k => Some (b, k)
+  | CBadDigest (BPut b k) | CBadDigest (BAppend b k) | CBadDigest (BPart b k _) => Some (b, k)
   | _ => None
   end.
 Definition kstep (c : call) (st : vstat) (ks : kstate) (ups : list (N * upload))
@@ -263,6 +287,14 @@ Definition kstep (c : call) (st : vstat) (ks : kstate) (ups : list (N * upload))
   | CAppend _ _ cid => let '(ks', e) := append_k st ks cid in (ks', ups, e)
   | CPutTags _ _ tg => let '(ks', e) := tags_k ks (set_tags tg) in (ks', ups, e)
   | CDelTags _ _ => let '(ks', e) := tags_k ks (set_tags []) in (ks', ups, e)
+  (* the digest is validated after the body was consumed and before anything is recorded; UploadPart
+     resolves its upload first *)
+  | CBadDigest (BPart _ k u) =>
+      match ups_find u ups with
+      | Some x => if bytes_eqb (u_key x) k then (ks, ups, Some BadDigest) else (ks, ups, Some NoSuchKey)
+      | None => (ks, ups, Some NoSuchKey)
+      end
+  | CBadDigest _ => (ks, ups, Some BadDigest)
   | _ => (ks, ups, None)
   end.
 
@@ -307,6 +339,14 @@ Definition apply_call (s : istate) (c : call) : istate * option err :=
       | None => (s, Some NoSuchBucket)
       | Some bs => (fupd s b (Some {| b_vers := v; b_objs := b_objs bs; b_ups := b_ups bs |}), None)
       end
+  | CDelsC b es =>
+      match s b with
+      | None => (s, Some NoSuchBucket)
+      | Some bs => (fupd s b (Some {| b_vers := b_vers bs; b_objs := dels_c (b_vers bs) (b_objs bs) es; b_ups := b_ups bs |}), None)
+      end
+  | CBadDigest (BPut b k) =>
+      (* PutObject validates the digest before it looks the bucket up *)
+      (s, Some BadDigest)
   | CCopy sb sk db dk =>
       match copy_src s sb sk with
       | inl e => (s, Some e)
@@ -458,7 +498,18 @@ Definition route (s : istate) (c : call) : option wclass * list payload :=
   | CMpCreate b k _ _ _ | CMpPart b k _ _ _ | CMpComplete b k _ _ _ | CMpAbort b k _
   | CAppend b k _ | CPutTags b k _ | CDelTags b k | CPutR b k _ => (Some (WKey b k), [])
   | CCopy sb sk db dk => (Some (WTwo (WKey sb sk) (WKey db dk)), [])
+  | CDelsC b es =>
+      let cond := existsb (fun e => match snd e with Some _ => true | None => false end) es in
+      let ver := match vers_of s b with Some VEnabled | Some VSuspended => true | _ => false end in
+      if cond || ver then (Some (WBucket b), []) else (None, map (fun e => PDel b (fst e) None) es)
+  | CBadDigest (BPut b k) =>
+      (* routed like an unconditional PutObject; on the queued path it is refused inside the outbox
+         transaction (rolled back: no entry), see [rejects] *)
+      match vers_of s b with Some VEnabled => (Some (WKey b k), []) | _ => (None, []) end
+  | CBadDigest (BAppend b k) | CBadDigest (BPart b k _) => (Some (WKey b k), [])
   end.
+(* calls the queued path refuses after their body was consumed *)
+Definition rejects (c : call) : bool := match c with CBadDigest _ => true | _ => false end.
 
 Fixpoint enqueue (q : list entry) (n : N) (ps : list payload) : list entry * N :=
   match ps with
@@ -498,6 +549,8 @@ Definition step (s : ostate) (o : op) : ostate * res :=
   | OCall c =>
       match route (inner s) c with
       | (None, ps) =>
+          if rejects c then (s, ResCall (Some BadDigest))      (* refused: nothing is enqueued *)
+          else
           (* accepted into the outbox: allowed also while another operation waits (other client) *)
           let '(q', n') := enqueue (queue s) (next_id s) ps in
           ({| inner := inner s; queue := q'; next_id := n'; inflight := inflight s |}, ResCall None)
@@ -546,6 +599,8 @@ End Inner.
      cmu/<b>/<k>/<label>/<ctype>/<class>/<meta>/<tags>  up/<b>/<k>/<label>/<partno>/<cid>
      cpl/<b>/<k>/<label>/<ifnone>/<ifmatch>  abt/<b>/<k>/<label>  cp/<sb>/<sk>/<db>/<dk>  app/<b>/<k>/<cid>
      ptag/<b>/<k>/<tags>  dtag/<b>/<k>  gtag/<b>/<k>
+     delsc/<b>/<k>:<ifmatch>,...   (DeleteObjects with per-entry If-Match)
+     bad/put/<b>/<k>  bad/app/<b>/<k>  bad/up/<b>/<k>/<label>   (declared digest does not match the body)
    optional bytes: N | S<hex>; kv lists: _ | k=v,k=v (hex); meta: N | M:<sys6>:<user> with sys6 six
    optional tokens separated by ','; ifmatch: N | * | <cid>.
    output: one token per op, then the sweep of the inner storage and the number of pending entries *)
@@ -587,7 +642,31 @@ Definition untok_vstat (t : bytes) : option vstat :=
   if bytes_eqb t B"E" then Some VEnabled else if bytes_eqb t B"S" then Some VSuspended
   else if bytes_eqb t B"U" then Some VUnset else None.
 
-Definition parse_op (t : bytes) : option op :=
+Definition untok_centry (t : bytes) : option (bytes * option (option N)) :=
+  match split_on ":"%byte t with
+  | [k; c] => match untok_bytes k, untok_ifm c with Some k, Some c => Some (k, c) | _, _ => None end
+  | _ => None
+  end.
+Definition parse_bad (l : list bytes) : option op :=
+  match l with
+  | [w; b; k] =>
+      match untok_bytes b, untok_bytes k with
+      | Some b, Some k =>
+          if bytes_eqb w B"put" then Some (OCall (CBadDigest (BPut b k)))
+          else if bytes_eqb w B"app" then Some (OCall (CBadDigest (BAppend b k)))
+          else None
+      | _, _ => None
+      end
+  | [w; b; k; u] =>
+      if bytes_eqb w B"up" then
+        match untok_bytes b, untok_bytes k, parse_N u with
+        | Some b, Some k, Some u => Some (OCall (CBadDigest (BPart b k u)))
+        | _, _, _ => None
+        end
+      else None
+  | _ => None
+  end.
+Definition parse_op_main (t : bytes) : option op :=
   match split_on "/"%byte t with
   | [c] => if bytes_eqb c B"W" then Some OWork else if bytes_eqb c B"J" then Some OJoin
            else if bytes_eqb c B"lb" then Some (ORead RListBuckets) else None
@@ -609,6 +688,7 @@ Definition parse_op (t : bytes) : option op :=
           else if bytes_eqb c B"gtag" then option_map (fun k => ORead (RTags b k)) (untok_bytes x)
           else if bytes_eqb c B"dtag" then option_map (fun k => OCall (CDelTags b k)) (untok_bytes x)
           else if bytes_eqb c B"dels" then option_map (fun ks => OCall (CDels b ks)) (untok_list x)
+          else if bytes_eqb c B"delsc" then option_map (fun es => OCall (CDelsC b es)) (mapM untok_centry (split_on ","%byte x))
           else if bytes_eqb c B"ver" then option_map (fun v => OCall (CVers b v)) (untok_vstat x)
           else None
       | None => None
@@ -672,12 +752,18 @@ Definition parse_op (t : bytes) : option op :=
   | _ => None
   end.
 
+Definition parse_op (t : bytes) : option op :=
+  match split_on "/"%byte t with
+  | c :: rest => if bytes_eqb c B"bad" then parse_bad rest else parse_op_main t
+  | [] => None
+  end.
+
 Definition show_err (e : err) : bytes :=
   match e with
   | NoSuchBucket => B"NoSuchBucket" | NoSuchKey => B"NoSuchKey"
   | BucketAlreadyExists => B"BucketAlreadyExists" | BucketNotEmpty => B"BucketNotEmpty"
   | PreconditionFailed => B"PreconditionFailed" | DeleteMarker => B"DeleteMarker"
-  | InvalidPart => B"InvalidPart"
+  | InvalidPart => B"InvalidPart" | BadDigest => B"BadDigest"
   end.
 Definition show_oerr (e : option err) : bytes :=
   match e with None => B"OK" | Some e => B"E:" ++ show_err e end.
@@ -742,7 +828,8 @@ Definition call_class (c : call) : wclass :=
   | CMpCreate b k _ _ _ | CMpPart b k _ _ _ | CMpComplete b k _ _ _ | CMpAbort b k _
   | CAppend b k _ | CPutTags b k _ | CDelTags b k | CPutR b k _ => WKey b k
   | CCopy sb sk db dk => WTwo (WKey sb sk) (WKey db dk)
-  | CDels b _ | CVers b _ | CCreate b | CDeleteB b => WBucket b
+  | CDels b _ | CVers b _ | CCreate b | CDeleteB b | CDelsC b _ => WBucket b
+  | CBadDigest (BPut b k) | CBadDigest (BAppend b k) | CBadDigest (BPart b k _) => WKey b k
   end.
 Definition cont_class (k : cont) : wclass :=
   match k with KCall c => call_class c | KRead r => rd_class r end.
@@ -783,7 +870,7 @@ Definition completes (s : ostate) (o : op) : option cont :=
 Definition accepts (s : ostate) (o : op) : list call :=
   match o with
   | OCall c => match route (inner s) c with
-               | (None, _) => [c]
+               | (None, _) => if rejects c then [] else [c]
                | (Some _, _) => match completes s o with Some _ => [c] | None => [] end
                end
   | OJoin => match completes s o with Some (KCall c) => [c] | _ => [] end
